@@ -36,11 +36,20 @@ var (
 
 var baseTime = time.Date(2031, 5, 6, 7, 8, 9, 0, time.UTC)
 
+var hookZones = []*time.Location{time.UTC, time.FixedZone("+0530", 19800), time.FixedZone("-0800", -28800)}
+
+// timeFor: the hook's answer for sequence number k. Consecutive events often get the same instant
+// in different zones (a hook that reports the time in the request's zone), so the record must
+// carry this call's wall-clock reading, not that of an earlier call at the same instant.
+func timeFor(k int) time.Time {
+	return baseTime.Add(time.Duration(k/7) * time.Second).In(hookZones[k%len(hookZones)])
+}
+
 func hookTime(ctx context.Context) time.Time {
 	timeCalls++
 	lastTimeCtx = ctx
 	hookSeq++
-	return baseTime.Add(time.Duration(hookSeq) * time.Second)
+	return timeFor(hookSeq)
 }
 func hookStr(ctx context.Context) string {
 	strCalls++
@@ -320,7 +329,7 @@ func TestC10_Hooks(t *testing.T) {
 				k := base - nset
 				if set[0] {
 					k++
-					wantTime = baseTime.Add(time.Duration(k) * time.Second)
+					wantTime = timeFor(k)
 				}
 				if set[1] {
 					k++
